@@ -10,8 +10,9 @@
 //   block (zero-initialised, so padding and unused union bytes are deterministic), every
 //   string / blob in its own exact-size block: ASan sees any read past them.
 //
-// Output: `E <eq of every ordered pair, row-major> C <sign of cmp, same order>
-//          I <iteration of list 0>;<list 1>[;<list 2>] M <avmessage bytes of each list>`
+// Output: `E <eq of every ordered pair, row-major> C <sign of cmp, same order; `x` see tags> [L <verdict>]
+//          I <iteration of list 0>;<list 1>[;<list 2>] M <avmessage bytes of each list | ~k>`
+//   (tags `=o1 =o2 =sg =uIJ =law =same01` behind the lists: see step())
 //   iteration = what rtosc_arg_val_itr_get returns while itr.i < size (printed as cells, a
 //   yielded array as `a<type>[<iteration of its cells>]`);
 //   `inf` for lists that contain an infinite range (num == 0), which iteration and
@@ -234,27 +235,120 @@ static std::string message(const AvList &L) {
 
 static int sign(int v) { return v > 0 ? 1 : v < 0 ? -1 : 0; }
 
+// a list that is exactly one value (a scalar cell, or one array with its cells): what the `_single`
+// entry points accept
+static bool is_single(const AvList &L) {
+    if (L.n < 1 || L.av[0].type == '-') return false;
+    if (L.av[0].type == 'a') return (size_t)rtosc_av_arr_len(L.av) + 1 == L.n;
+    return L.n == 1;
+}
+
+// The order laws on the raw signs (the same check as in the driver and, on what is printed, in the
+// property module): "ok" or the first law that fails.
+static std::string law_verdict(const std::vector<std::vector<int>> &E, const std::vector<std::vector<int>> &C,
+                               bool same01) {
+    size_t n = E.size();
+    auto at = [](const char *w, size_t i, size_t j) {
+        return std::string(w) + std::to_string(i) + std::to_string(j);
+    };
+    for (size_t i = 0; i < n; ++i) {
+        if (E[i][i] != 1 || C[i][i] != 0) return at("refl", i, i);
+        for (size_t j = 0; j < n; ++j) {
+            if (C[i][j] != -C[j][i]) return at("antisym", i, j);
+            if ((E[i][j] == 1) != (C[i][j] == 0)) return at("eqcmp", i, j);
+        }
+    }
+    for (size_t i = 0; i < n; ++i)
+        for (size_t j = 0; j < n; ++j)
+            for (size_t k = 0; k < n; ++k)
+                if (C[i][j] <= 0 && C[j][k] <= 0) {
+                    if (C[i][k] > 0) return at("trans", i, j) + std::to_string(k);
+                    if ((C[i][j] < 0 || C[j][k] < 0) && C[i][k] == 0) return at("strict", i, j) + std::to_string(k);
+                }
+    if (same01 && n >= 2) {
+        if (E[0][1] != 1 || C[0][1] != 0) return "same01";
+        for (size_t k = 0; k < n; ++k)
+            if (E[0][k] != E[1][k] || E[k][0] != E[k][1] || C[0][k] != C[1][k] || C[k][0] != C[k][1])
+                return at("same", 0, k);
+    }
+    return "ok";
+}
+
+// Tags (after the lists):
+//   =o1 / =o2   call eq/cmp with get_default_cmp_options() / with an options struct {0.0} on the stack
+//               (no tag: opt == NULL); all three are "the default comparison options"
+//   =sg         pairs of one-value lists go through rtosc_arg_vals_eq_single / _cmp_single
+//   =uIJ        the property states no order for lists I and J (MIDI, colours, different types, NULL
+//               string, arrays of different element type, NaN): a non-zero sign is printed as `x`
+//   =law        print `L <verdict>`: the order laws (and with =same01 compress-blindness) on the raw signs
 static std::string step(const std::string &line) {
     auto w = words(line);
     std::vector<std::unique_ptr<AvList>> ls;
-    for (auto &t : w) {
-        if (t[0] == '=' || t[0] == '#') break;
+    size_t t = 0;
+    for (; t < w.size(); ++t) {
+        if (w[t][0] == '=' || w[t][0] == '#') break;
         std::unique_ptr<AvList> L(new AvList);
-        if (!parse_list(t, *L)) return "bad-op";
+        if (!parse_list(w[t], *L)) return "bad-op";
         ls.push_back(std::move(L));
     }
     if (ls.size() < 1 || ls.size() > 3) return "bad-op";
+    size_t n = ls.size();
+    int optk = 0;
+    bool sg = false, law = false, same01 = false;
+    std::vector<std::vector<bool>> hide(n, std::vector<bool>(n, false));
+    for (; t < w.size(); ++t) {
+        const std::string &g = w[t];
+        if (g[0] == '#') break;
+        if (g == "=o1") optk = 1;
+        else if (g == "=o2") optk = 2;
+        else if (g == "=sg") sg = true;
+        else if (g == "=law") law = true;
+        else if (g == "=same01") same01 = true;
+        else if (g.size() == 4 && g[1] == 'u') {
+            size_t i = (size_t)(g[2] - '0'), j = (size_t)(g[3] - '0');
+            if (i < n && j < n) hide[i][j] = hide[j][i] = true;
+        }
+    }
+    rtosc_cmp_options stack_opt = {0.0};
+    const rtosc_cmp_options *opt = optk == 1 ? get_default_cmp_options() : optk == 2 ? &stack_opt : NULL;
+    std::vector<std::vector<int>> E(n, std::vector<int>(n)), C(n, std::vector<int>(n));
+    for (size_t i = 0; i < n; ++i)
+        for (size_t j = 0; j < n; ++j) {
+            AvList &x = *ls[i], &y = *ls[j];
+            if (sg && is_single(x) && is_single(y)) {
+                E[i][j] = rtosc_arg_vals_eq_single(x.av, y.av, opt);
+                C[i][j] = sign(rtosc_arg_vals_cmp_single(x.av, y.av, opt));
+            } else {
+                E[i][j] = rtosc_arg_vals_eq(x.av, y.av, x.n, y.n, opt);
+                C[i][j] = sign(rtosc_arg_vals_cmp(x.av, y.av, x.n, y.n, opt));
+            }
+        }
     std::ostringstream o;
     o << "E";
-    for (auto &x : ls)
-        for (auto &y : ls) o << " " << rtosc_arg_vals_eq(x->av, y->av, x->n, y->n, NULL);
+    for (size_t i = 0; i < n; ++i)
+        for (size_t j = 0; j < n; ++j) o << " " << E[i][j];
     o << " C";
-    for (auto &x : ls)
-        for (auto &y : ls) o << " " << sign(rtosc_arg_vals_cmp(x->av, y->av, x->n, y->n, NULL));
+    for (size_t i = 0; i < n; ++i)
+        for (size_t j = 0; j < n; ++j) {
+            if (hide[i][j] && C[i][j] != 0) o << " x";
+            else o << " " << C[i][j];
+        }
+    if (law) o << " L " << law_verdict(E, C, same01);
     o << " I ";
-    for (size_t i = 0; i < ls.size(); ++i) o << (i ? ";" : "") << iterate(*ls[i]);
+    for (size_t i = 0; i < n; ++i) o << (i ? ";" : "") << iterate(*ls[i]);
     o << " M";
-    for (auto &x : ls) o << " " << message(*x);
+    // The property says that the message does not depend on the layout, not what an array looks like in a
+    // message: for a list with an array only "same bytes as list k of this line" is printed.
+    std::vector<std::string> ms;
+    for (auto &x : ls) ms.push_back(message(*x));
+    for (size_t i = 0; i < n; ++i) {
+        bool has_arr = false;
+        for (size_t c = 0; c < ls[i]->n; ++c) has_arr |= ls[i]->av[c].type == 'a';
+        if (!has_arr || ms[i] == "inf" || ms[i] == "null") { o << " " << ms[i]; continue; }
+        size_t k = 0;
+        while (ms[k] != ms[i]) ++k;
+        o << " ~" << k;
+    }
     return o.str();
 }
 
